@@ -8,3 +8,14 @@ spec fn strip(c: Cell) -> Cell {
 spec fn type_err_of(e: Xerr, val: Cell) -> bool {
     e is TypeErrorMsg && e->TypeErrorMsg_val == val
 }
+
+// R6: `T::try_from(i).map_err(|_| Xerr::IntegerOverflow)` (closure with a `_` parameter is outside
+// the Verus dialect): the checked conversion with the std-documented meaning
+#[verifier::external_body]
+fn verif_isize_try_from(i: i128) -> (r: Xresult1<isize>)
+    ensures isize::MIN <= i <= isize::MAX ==> r is Ok && r->Ok_0 == i, !(isize::MIN <= i <= isize::MAX) ==> r is Err && r->Err_0 is IntegerOverflow
+{ unimplemented!() }
+#[verifier::external_body]
+fn verif_usize_try_from(i: i128) -> (r: Xresult1<usize>)
+    ensures 0 <= i <= usize::MAX ==> r is Ok && r->Ok_0 == i, !(0 <= i <= usize::MAX) ==> r is Err && r->Err_0 is IntegerOverflow
+{ unimplemented!() }
